@@ -190,16 +190,28 @@ class Check:
                     self.theorems.append({"name": n, "status": st, "axioms": found[n]})
                     if bad:
                         self.broken.append(("theorem", n, "depends on " + ", ".join(bad)))
-        # forbidden tokens (comments stripped)
-        for root, _, files in os.walk(os.path.join(LEAN, "Tbx")):
-            for fn in files:
-                if fn.endswith(".lean"):
-                    txt = open(os.path.join(root, fn)).read()
-                    txt = re.sub(r"/-.*?-/", "", txt, flags=re.S)
-                    txt = re.sub(r"--.*", "", txt)
-                    for pat in FORBIDDEN:
-                        if re.search(pat, txt, re.M):
-                            self.broken.append(("forbidden-token", os.path.join(root, fn), pat))
+        # forbidden tokens (comments stripped) in every Lean file the property depends on: the transitive
+        # `import Tbx.…` closure of its theorem modules, audit files and driver
+        roots = list(cfg.get("lean_targets", [])) + ["Tbx.Drv." + self.pid]
+        for a in audits:
+            roots.append(a[:-5].replace("/", "."))
+        seen, todo = set(), list(roots)
+        while todo:
+            mod = todo.pop()
+            if mod in seen:
+                continue
+            seen.add(mod)
+            path = os.path.join(LEAN, mod.replace(".", "/") + ".lean")
+            if not os.path.exists(path):
+                continue
+            raw = open(path).read()
+            todo += re.findall(r"^import\s+(Tbx\.\S+)", raw, re.M)
+            txt = re.sub(r"/-.*?-/", "", raw, flags=re.S)
+            txt = re.sub(r"--.*", "", txt)
+            for pat in FORBIDDEN:
+                if re.search(pat, txt, re.M):
+                    self.broken.append(("forbidden-token", path, pat))
+        self.lean_files_scanned = len(seen)
         if self.tier == "thorough" and cfg.get("lean_targets"):
             for t in cfg["lean_targets"]:
                 rc, out, dt = run(["lake", "env", "leanchecker", t], cwd=LEAN, timeout=3600)
